@@ -332,7 +332,9 @@ fn n_engine(ctx: &Ctx) {
         jobs.push((Universe::new("U_ab3{a,b}", &["a", "b"], 3, 3, false), vec![c(R)]));
         jobs.push((crate::props::c05::u_rep_single(&["a", "b"], 6), vec![c(R), Cfg::with(R, 2, 1)]));
         jobs.push((Universe::new("U_adv(A_cls)", A_CLS, 2, 3, false), vec![c(D), c(W | D), c(NW | S)]));
+        jobs.push((u_prefix_suffix(), vec![c(D), c(W), c(W | D), c(NW | D), c(D | R)]));
     } else {
+        jobs.push((u_prefix_suffix(), vec![c(D), c(W), c(W | D), c(NW | D), c(D | R), c(W | I), c(NS | D)]));
         jobs.push((Universe::new("U_ab3{a,b}", &["a", "b"], 3, 0, true), vec![c(0), c(R)]));
         jobs.push((Universe::new("U_abc2{a,b,c}", &["a", "b", "c"], 2, 0, true), vec![c(0), c(R), c(I)]));
         jobs.push((crate::props::c05::u_rep_single(&["a", "b"], 8), vec![c(R), Cfg::with(R, 2, 1), Cfg::with(R, 1, 2)]));
